@@ -1,26 +1,63 @@
 import OV.Model.C12Autocast
 /-!
-# C12 — the operator the converter's promotion relies on, per opset (core Lean only)
+# C12 — the operator the converter's promotion emits, per opset (core Lean only)
 
-`autocast.static_cast_inputs` promotes a literal that has a bound sibling with a `CastLike` node of the function's
-default opset.  `CastLike` exists in the default domain from opset 15 on; the converter accepts
-`default_opset=opset13`/`opset14` all the same.
+`autocast.static_cast_inputs.cast_like` as of /repo commit 7b0eb49: a literal that has a bound sibling is promoted
+with `CastLike(literal, sibling)` when the function's default opset is ≥ 15 (the first opset that has `CastLike`);
+below that with `Cast(literal, to = <static dtype of the sibling>)` when the converter knows that dtype (annotated
+input), and the program is refused (`ValueError … CastLike requires opset 15`) when it does not.  Before that
+commit `CastLike` was emitted at every opset (`promoAtPre`, finding D47, fixed).
 -/
 namespace OV.Autocast
 
 /-- First opset of the default domain that has `CastLike`. -/
 def castLikeSince : Nat := 15
 
-/-- Does `static_cast_inputs` emit a `CastLike` for this call?  (Some literal has a sibling bound to its type variable.) -/
-def usesCastLike {κ : Type} [DecidableEq κ] (fs : List (Formal κ)) (args : List Arg) : Bool :=
+inductive Promo
+  | castLike
+  | cast
+  | refused
+  deriving DecidableEq, Repr
+
+/-- What `cast_like` does for a literal whose bound sibling has a statically `known` dtype or not, at default opset `v`. -/
+def promoAt (v : Nat) (known : Bool) : Promo :=
+  if castLikeSince ≤ v then .castLike else if known then .cast else .refused
+
+/-- The same before commit 7b0eb49. -/
+def promoAtPre (_v : Nat) (_known : Bool) : Promo := .castLike
+
+/-- The operator the promotion emits exists at opset `v` (`Cast` exists at every supported opset; a refusal emits nothing). -/
+def Promo.availableAt (v : Nat) : Promo → Bool
+  | .castLike => decide (castLikeSince ≤ v)
+  | .cast => true
+  | .refused => true
+
+section
+variable {κ : Type} [DecidableEq κ]
+
+/-- Does `static_cast_inputs` promote some literal of this call with a cast?  (Some literal has a sibling bound to its
+type variable.) -/
+def usesCastLike (fs : List (Formal κ)) (args : List Arg) : Bool :=
   match assign fs args with
   | .error _ => false
   | .ok sa => sa.any (fun p => match p.2 with
       | .lit _ => (targetLast sa p.1).isSome
       | _ => false)
 
-/-- Every operator the promotion emits exists at opset `v`. -/
-def staticValidAt {κ : Type} [DecidableEq κ] (v : Nat) (fs : List (Formal κ)) (args : List Arg) : Bool :=
-  !usesCastLike fs args || decide (castLikeSince ≤ v)
+/-- The promotions of a call, one per literal that has a bound sibling (`known` = the sibling's dtype is known to the
+converter: here the flag of `Arg.tensor`). -/
+def promosAt (v : Nat) (fs : List (Formal κ)) (args : List Arg) : List Promo :=
+  match assign fs args with
+  | .error _ => []
+  | .ok sa => sa.filterMap (fun p => match p.2 with
+      | .lit _ => (targetLast sa p.1).map (fun t => promoAt v t.2)
+      | _ => none)
+
+/-- `static_cast_inputs` in a function whose default opset is `v`: refused when some promotion is, else `castStatic`
+(`Cast(to = d)` and `CastLike` to a tensor of dtype `d` produce the same tensor). -/
+def castStaticAt (v : Nat) (fs : List (Formal κ)) (args : List Arg) : Except Err (List Out) :=
+  if (promosAt v fs args).contains .refused then .error .refused else castStatic fs args
+
+end
 
 end OV.Autocast
